@@ -247,7 +247,11 @@ def run_C05(w):
                   "def f():\n    a = 'first'; b = 'second'\n    def g():\n        if 0:\n            a\n        return b\n    return g()\nprint(f())\n",
                   "def f():\n    a = 0; b = 5\n    def g():\n        nonlocal a\n        return b\n    return g()\nprint(f())\n",
                   "def f():\n    a = 42; b = 1\n    def g():\n        if 0:\n            a\n        return eval('a') + b\n    return g()\nprint(f())\n",
-                  "def f(p, q):\n    def g(x, y):\n        if 0:\n            h = lambda: (x, y)\n        return p, q, x\n    return g(1, 2)\nprint(f(3, 4))\n"]
+                  "def f(p, q):\n    def g(x, y):\n        if 0:\n            h = lambda: (x, y)\n        return p, q, x\n    return g(1, 2)\nprint(f(3, 4))\n",
+                  # sibling code objects that differ only in constants with colliding hashes / equal values (C05-r4)
+                  "last, before = (lambda s: s[-1]), (lambda s: s[-2])\nprint(last('abc'), before('abc'))\n",
+                  "sh = [lambda n: n + 1, lambda n: n + 2, lambda n: n + -1, lambda n: n + -2, lambda n: n * 1.0, lambda n: n * 1, lambda n: n * True]\nprint([repr(f(10)) for f in sh])\ndel sh\n",
+                  "def make():\n    return (lambda: -1.0), (lambda: -2.0), (lambda: 0), (lambda: %d), (lambda: 0.0), (lambda: -0.0)\nprint([repr(f()) for f in make()])\n" % (2 ** 61 - 1)]
     items += [('exec-fixed-%d' % i, s) for i, s in enumerate(fixed_exec)]
     import os, glob
     for f in sorted(glob.glob(os.path.join(os.path.dirname(os.path.dirname(os.path.abspath(__file__))), 'corpus', 'C05', '*.py'))):
@@ -271,6 +275,21 @@ def json_rt(d):
     return CodeData.from_json_data(json.loads(json.dumps(d.to_json_data(), allow_nan=False)))
 
 
+def strict(d):
+    """the serialization of d, strict in every type and bit, with all NaN payloads identified (CodeData.__eq__ identifies
+    NaNs; everything else has to agree exactly - `==` alone goes through constant_key and is blind to a key that merges
+    two constants; seeded change C06-r4)"""
+    out = []
+    for tok in ser.s_data(d).split(' '):
+        if len(tok) == 17 and tok[0] == 'f' and (int(tok[1:], 16) & 0x7fffffffffffffff) > 0x7ff0000000000000:
+            tok = 'fNaN'
+        elif len(tok) == 33 and tok[0] == 'c':
+            a, b = int(tok[1:17], 16), int(tok[17:], 16)
+            tok = 'c' + ('NaN' if (a & 0x7fffffffffffffff) > 0x7ff0000000000000 else tok[1:17]) + ('NaN' if (b & 0x7fffffffffffffff) > 0x7ff0000000000000 else tok[17:])
+        out.append(tok)
+    return ' '.join(out)
+
+
 OPS = {
     'norm': lambda d: d.normalize(),
     'code': lambda d: CodeData.from_code(d.to_code()).normalize(),
@@ -292,6 +311,7 @@ def c06_one(w, inp, c):
     # histories
     rng = random.Random(hash(inp['label']) & 0xffff ^ w.seed)
     maxlen = 4 if w.tier != 'thorough' else 7
+    s0 = strict(n0)
     for _ in range(3 if w.tier != 'thorough' else 8):
         hist = [rng.choice(['norm', 'code', 'json']) for _ in range(rng.randrange(1, maxlen + 1))]
         cur = n0
@@ -304,6 +324,9 @@ def c06_one(w, inp, c):
                 break
             if nxt != n0 or hash(nxt) != hash(n0):
                 w.violation('C06:history-changes-normal-form:' + op, inp, {'history': hist[:k + 1]})
+                break
+            if strict(nxt) != s0:
+                w.violation('C06:history-changes-normal-form-strictly:' + op, inp, {'history': hist[:k + 1]})
                 break
             cur = nxt
     # serialization variants, per code object
@@ -335,6 +358,8 @@ def c06_one(w, inp, c):
                 continue
             if dk.normalize() != dv.normalize():
                 w.violation('C06:variants-normalize-differently:' + kind, inp, {'code_name': k.co_name, 'firstlineno': k.co_firstlineno})
+            elif strict(dk.normalize()) != strict(dv.normalize()):
+                w.violation('C06:variants-normalize-differently-strictly:' + kind, inp, {'code_name': k.co_name, 'firstlineno': k.co_firstlineno})
             # the variant is a compiled-looking code object too: strict round trip and faithful decode (C01/C02 on variants)
             v2, e3 = try_(dv.to_code)
             if e3 is not None or not O.strict_same(v, v2):
